@@ -285,15 +285,21 @@ func checkC14(w *World, r *Report) {
 					}
 				}
 			}
+			// exits of one kind are joined (one return fed from several places)
+			ownCond, inhCond, other := pcZ, pcZ, false
 			for _, row := range sym.retTable(f, 0) {
 				switch {
 				case isOwn(row.val):
-					retOwn = pcCompare(row.cond, classify, func(env map[string]bool) bool { return !env["nostmt"] }) == ""
+					ownCond = pcOrF(ownCond, row.cond)
 				case row.val == ssa.Value(inhP):
-					retInh = pcCompare(row.cond, classify, func(env map[string]bool) bool { return env["nostmt"] }) == ""
+					inhCond = pcOrF(inhCond, row.cond)
 				default:
-					retOwn, retInh = false, false
+					other = true
 				}
+			}
+			if !other {
+				retOwn = pcCompare(ownCond, classify, func(env map[string]bool) bool { return !env["nostmt"] }) == ""
+				retInh = pcCompare(inhCond, classify, func(env map[string]bool) bool { return env["nostmt"] }) == ""
 			}
 		}
 		r.Check(rejects && retOwn && retInh, "R14.3", "getConfig", fd.Pos(), "error iff inherited=false ∧ own=true; returns own if present else inherited", "config true under config false is not (exactly) what is rejected, or config false is not inherited by descendants")
